@@ -27,7 +27,7 @@ def run(patch):
 
 def main():
     patches = []
-    for a in sys.argv[1:]:
+    for a in [os.path.abspath(x) for x in sys.argv[1:]]:
         if os.path.isdir(a):
             for root, _, files in os.walk(a):
                 if 'patch.diff' in files:
